@@ -203,9 +203,13 @@ def wf_raw(v: View, cname, tag="", bound=None):
     if v.AS is not None:
         cl.append(("W7-atom-descriptors-stored-under-their-centre", FA([x], z3.Implies(v.as_has(x), z3.And(d_is_atom(v.as_val(x)), d_slot(v.as_val(x), 0) == OIntS.OSome(x))), patterns=[v.as_has(x)])))
         cl.append(("W7-atom-descriptors-well-formed", FA([x], z3.Implies(v.as_has(x), d_wf(v.as_val(x))), patterns=[v.as_has(x)])))
+        cl.append(("W7-atom-descriptor-keys-are-atoms", FA([x], z3.Implies(v.as_has(x), v.atom(x)), patterns=[v.as_has(x)])))
+        cl.append(("W8-bond-descriptor-keys-join-atoms", FA([b], z3.Implies(v.bs_has(b), z3.And(v.atom(BondS.lo(b)), v.atom(BondS.hi(b)))), patterns=[v.bs_has(b)])))
         cl.append(("W8-bond-descriptors-stored-under-their-bond", FA([b], z3.Implies(v.bs_has(b), d_bond_centred_core(v.bs_val(b), b)), patterns=[v.bs_has(b)])))
         cl.append(("W8-bond-descriptors-well-formed", FA([b], z3.Implies(v.bs_has(b), d_wf(v.bs_val(b))), patterns=[v.bs_has(b)])))
     if v.AC is not None:
+        cl.append(("W10-atom-change-keys-are-atoms", FA([x], z3.Implies(v.ac_has(x), v.atom(x)), patterns=[v.ac_has(x)])))
+        cl.append(("W11-bond-change-keys-join-atoms", FA([b], z3.Implies(v.bc_has(b), z3.And(v.atom(BondS.lo(b)), v.atom(BondS.hi(b)))), patterns=[v.bc_has(b)])))
         cl.append(("W10-atom-change-tables", FA([x], z3.Implies(v.ac_has(x), old(v.ac_ref(x))), patterns=[v.ac_has(x)])))
         cl.append(("W10-atom-change-dicts-unshared", FA([x, y], z3.Implies(z3.And(v.ac_has(x), v.ac_has(y), x != y), v.ac_ref(x) != v.ac_ref(y)),
                                                                patterns=[z3.MultiPattern(v.ac_ref(x), v.ac_ref(y))])))
